@@ -19,6 +19,8 @@ import (
 	"github.com/elastic/go-ucfg/yaml"
 
 	"harness/sim"
+	"harness/varexp"
+	"harness/world"
 )
 
 var hostileNames = []string{"", ".", "..", "a.", ".a", "a..b", "-1", "-0", "+1", "0", "1", "007", "0x10", "0b11", "0o7", "1_0", "1e3", "1.5",
@@ -390,7 +392,25 @@ func documents(r *sim.R) {
 // Run executes one hostile run.
 func Run(r *sim.R) {
 	r.Order = r.T.Weighted([]int{3, 1, 1}, "order-policy")
-	switch r.T.Weighted([]int{4, 3, 2, 3, 3, 2}, "family") {
+	switch r.T.Weighted([]int{4, 3, 2, 3, 3, 2, 3, 3}, "family") {
+	case 7:
+		// well-formed reference graphs of every shape (cycles through dictionaries and lists,
+		// absorbed cycles, drifting environments, failing resolvers) read through every entry point
+		n := 6
+		if r.Tier == "thorough" {
+			n = 12
+		}
+		varexp.Run(r, "C07", n)
+		r.Probe("hostile: reference graphs read under the monitors")
+	case 6:
+		// nothing hostile but the history: every operation, every policy, elements moved by
+		// removals and prepends, configs attached and merged from - under the monitors
+		n := 14
+		if r.Tier == "thorough" {
+			n = 30
+		}
+		world.Run(r, world.Histories, n)
+		r.Probe("hostile: long valid history under the monitors")
 	case 0:
 		accessors(r)
 	case 1:
